@@ -20,5 +20,6 @@ C_Prs == {PrA}
 C_ProvSeqs == {<<"p1">>, <<"p1", "p2">>}
 C_ModSvc == <<>>
 C_Msgs == {"ModCreate", "ModPause", "ModStart", "ModKill", "Respond", "NoSuper"}
-C_Reactions == {<<"", "">>, <<"kill", "">>, <<"pause", "">>, <<"", "kill">>, <<"pause", "kill">>}
+C_Reactions == {<<"", "", 0>>, <<"kill", "", 0>>, <<"pause", "", 0>>, <<"", "kill", 0>>, <<"pause", "kill", 0>>,
+                <<"start", "", 0>>, <<"cap1", "pause", 0>>}
 =============================================================================
